@@ -46,6 +46,11 @@ inductive Pattern
       imports; an import left for goimports to ADD would be found by searching around the
       working directory / output directory — location-dependent, never classified as this -/
   | explicitImport
+  /-- a generated file is opened so that nothing of an earlier content survives: `os.Create`,
+      `O_TRUNC`, `WriteFile` — or without truncation but only after the SAME compile has created /
+      truncated that very file (read at the site); otherwise the history of the `-out` directory
+      would reach the output -/
+  | freshFile
   /-- order-SENSITIVE and recorded in KNOWN_FINDINGS.txt (`c19_unstable_sort_counterexample`) -/
   | knownFinding
   /-- a site the committed expectation does not know: broken tie -/
@@ -74,6 +79,7 @@ def Pattern.name : Pattern → String
   | .notAMap => "not-a-map"
   | .locationNormalised => "location-normalised"
   | .explicitImport => "explicit-import"
+  | .freshFile => "fresh-file"
   | .knownFinding => "known-finding"
   | .unclassified => "unclassified"
   | .vanished => "vanished"
